@@ -360,6 +360,9 @@ class TcpInverterProtocol(InverterProtocol, asyncio.Protocol):
         try:
             return await self._send_request_with_retries(command)
         finally:
+            if not self.keep_alive:
+                # close while the lock is still held: a waiting request must not inherit this connection
+                self._close_transport()
             if self._lock and self._lock.locked():
                 self._lock.release()
 
@@ -410,6 +413,9 @@ class TcpInverterProtocol(InverterProtocol, asyncio.Protocol):
             self._close_transport()
 
     async def close(self):
+        if self._transport is None:
+            # nothing to close, no need to queue behind the requests waiting for the lock
+            return
         await self._ensure_lock().acquire()
         try:
             self._close_transport()
